@@ -469,6 +469,36 @@ def r02_10(ctx):
     c08.r08_5(ctx)
 
 
+def r02_11(ctx):
+    """R02.11 what is written is what was stored: (a) Symbol.config_string interpolates the evaluated value itself in the
+    int/hex/float line (the loader keeps the spelling it reads, so a writer-side prefix or re-formatting changes the value
+    on reload and turns a Kconfig default into a mismatch); (b) no reader or writer in the library cuts line-oriented text
+    with str.splitlines(); (c) the float validator accepts what the float normaliser writes (C06 R06.10)."""
+    from .common import float_validator_shape, no_splitlines
+    repo = ctx.repo
+    f = repo.func(f"{CORE}:Symbol.config_string")
+    ctx.analysed(f.qual)
+    val = [n for n in f.node.body if isinstance(n, ast.Assign) and ast.unparse(n.value) == "self.str_value" and isinstance(n.targets[0], ast.Name)]
+    if not val:
+        raise AnchorError("config_string: no `<local> = self.str_value`")
+    v = val[0].targets[0].id
+    stores = [n for n in ast.walk(f.node) if isinstance(n, ast.Name) and n.id == v and isinstance(n.ctx, ast.Store)]
+    construct = "Symbol.config_string/the evaluated value is written as it is"
+    bad = None
+    if len(stores) > 1:
+        bad = f"`{v}` is re-assigned at line {stores[1].lineno} before it is written"
+    for r in ast.walk(f.node):
+        if isinstance(r, ast.Return) and r.value is not None:
+            for fv in [x for x in ast.walk(r.value) if isinstance(x, ast.FormattedValue)]:
+                names = {x.id for x in ast.walk(fv.value) if isinstance(x, ast.Name)}
+                if v in names and not isinstance(fv.value, ast.Name) and not ast.unparse(fv.value).startswith(("_escape(", "escape(")):
+                    bad = f"the value is written as `{ast.unparse(fv.value)}`"
+    (ctx.bad(construct, bad + ": the loader stores the spelling it reads, so the reloaded value differs from the one that was written", f.loc())
+     if bad else ctx.ok(construct, f.loc(val[0]), value_local=v))
+    no_splitlines(ctx, [CORE, "esp_kconfiglib.deprecated"], "the loader / writer then sees one record where the file has two lines, or two where it has one")
+    float_validator_shape(ctx)
+
+
 def rules():
-    return [("R02.1", r02_1, 8), ("R02.2", r02_2, 8), ("R02.3", r02_3, 9), ("R02.4", r02_4, 3), ("R02.5", r02_5, 5),
+    return [("R02.11", r02_11, 3), ("R02.1", r02_1, 8), ("R02.2", r02_2, 8), ("R02.3", r02_3, 9), ("R02.4", r02_4, 3), ("R02.5", r02_5, 5),
             ("R02.6", r02_6, 3), ("R02.7", r02_7, 3), ("R02.8", r02_8, 2), ("R02.9", r02_9, 6), ("R02.10", r02_10, 3)]
